@@ -95,9 +95,9 @@ PROPS['C09'] = {
              '(role layout, waited pops, lost-subscribe-race count) of a round.'),
     'min_nontrivial': [200, 2000],
     'require_classes': ['queue_mt:pops_that_waited', 'queue_mt:exceptions_via_unblock'],
-    'single_thread_scenarios': ('queue_history', 'queue_void_history', 'queue_string_values'),
+    'single_thread_scenarios': ('queue_history', 'queue_void_history', 'queue_string_values', 'queue_callback_consumer'),
     'jobs': [
-        J('hist_asan', 'c09.cpp', 'asan', [20000, 1000000], scenario='queue_history,queue_void_history,queue_string_values', threads=1),
+        J('hist_asan', 'c09.cpp', 'asan', [20000, 1000000], scenario='queue_history,queue_void_history,queue_string_values,queue_callback_consumer', threads=1),
         J('mt_asan', 'c09.cpp', 'asan', [30000, 1500000], scenario='queue_mt,queue_unblock_contended', threads=6),
         J('mt_rel', 'c09.cpp', 'rel', [200000, 10000000], scenario='queue_mt,queue_unblock_contended', threads=6),
         J('mt_crel', 'c09.cpp', 'crel', [0, 4000000], scenario='queue_mt', threads=6, tiers=(T,)),
@@ -116,9 +116,9 @@ PROPS['C10'] = {
     'exhaustive_note': 'all sequences over {push,pop,unblock_push} of length 1..7 for limits 1 and 2 (6558 histories) - exhaustive for that sub-space only',
     'min_nontrivial': [200, 2000],
     'require_classes': ['lqueue_mt:pops_that_waited', 'lqueue_mt:exceptions_via_unblock'],
-    'single_thread_scenarios': ('lqueue_history', 'lqueue_exhaustive', 'lqueue_string_values'),
+    'single_thread_scenarios': ('lqueue_history', 'lqueue_exhaustive', 'lqueue_string_values', 'lqueue_callback_consumer'),
     'jobs': [
-        J('hist_asan', 'c10.cpp', 'asan', [20000, 1000000], scenario='lqueue_exhaustive,lqueue_history,lqueue_string_values', threads=1),
+        J('hist_asan', 'c10.cpp', 'asan', [20000, 1000000], scenario='lqueue_exhaustive,lqueue_history,lqueue_string_values,lqueue_callback_consumer', threads=1),
         J('mt_asan', 'c10.cpp', 'asan', [30000, 1500000], scenario='lqueue_mt', threads=6),
         J('mt_rel', 'c10.cpp', 'rel', [200000, 10000000], scenario='lqueue_mt', threads=6),
         J('mt_crel', 'c10.cpp', 'crel', [0, 4000000], scenario='lqueue_mt', threads=6, tiers=(T,)),
